@@ -670,6 +670,9 @@ func runC08(c *Ctx) {
 		o.Site(s.Pos(), "baton send")
 	}
 
+	// who may move the buffer's read deadline
+	deadlineSettersRule(c, "R9w", "packetio")
+
 	// R7: deadline tests
 	o = c.Obl("R7", fname(r.Read), "Read tests the read deadline without blocking before touching the buffer, and waits on it together with the wake-up channel; both lead to a timeout error", 2)
 	if preSel == nil {
